@@ -118,12 +118,22 @@ def runOpCanon (run : Op → M Unit) (op : Op) : M Unit :=
   | .allocate o n => do run op; writeData o 0 (List.replicate n 0xCD)
   | _ => run op
 
+/-- executable form of the model's precondition `Pool.pre` (see `Props.C05.checkPre`) -/
+def applicable (op : Op) (p : Pool) : Bool :=
+  match op with
+  | .ctorDefault o | .ctorUnits o _ => (p.objs o).isNone && o < NOBJ
+  | .ctorCopy o s | .ctorMove o s => (p.objs o).isNone && (p.objs s).isSome && o < NOBJ
+  | .dtor o | .clear o | .allocate o _ | .allocateFill o _ _ => (p.objs o).isSome
+  | .assignCopy o s | .assignMove o s => (p.objs o).isSome && (p.objs s).isSome
+  | .writeData o a us => match p.objs o with | some b => decide (a + us.length ≤ b.size) | none => false
+
 structure Prefix where
   p : Pool
   store : Store.Store
   out : String := ""
   specWhy : String := ""
   dead : Bool := false
+  invalid : Option Nat := none -- the first step whose precondition does not hold (shrunk / hand-written replays)
   lastObs : String := "-"      -- the implementation's own last snapshot
 
 /-- run the operations of a history from the empty pool, printing a snapshot per step and judging the
@@ -140,6 +150,8 @@ def runPrefix (w L : Nat) (ops : List Op) (c : Case) : Prefix := Id.run do
   for op in ops do
     i := i + 1
     if dead then break
+    if !applicable op p then
+      return { p := p, store := store, out := s!"invalid step={i}", specWhy := "", dead := true, invalid := some i, lastObs := lastObs }
     match runOpCanon Op.run op p with
     | .ok _ p' =>
       p := p'
@@ -176,9 +188,13 @@ def handleHist (c : Case) : Verdict :=
   let ops := opStrs.filterMap (parseOp w)
   if ops.length != opStrs.length then { corr := false, why := "unparsable op" } else
   let r := runPrefix w L ops c
+  -- a history that uses a dead object / constructs over a live one is not a history of the property: both sides refuse it
+  if r.invalid.isSome then { corr := r.out == obsString c, spec := true, why := "not a valid history (ignored)", model := r.out, branch := "hist.invalid" } else
   let out := r.out ++ endToken r.p
+  let obs := obsString c
   let specWhy :=
-    if r.specWhy == "" && !(c.obs.getLast?.getD "" == "end=clean") then "storage leaked or released twice at the end of the history"
+    if obs.startsWith "abort" || obs.startsWith "hang" then s!"the history does not run to its end on the implementation: {obs}"
+    else if r.specWhy == "" && !(c.obs.getLast?.getD "" == "end=clean") then "storage leaked or released twice at the end of the history"
     else r.specWhy
   { corr := out == obsString c, spec := specWhy == "", why := specWhy, model := (out.take 20000).toString,
     branch := s!"hist.w{c.get "w"}.len{ops.length / 8 * 8}", nontrivial := ops.length > 3 }
@@ -286,7 +302,11 @@ def handleFault (c : Case) : Verdict :=
   | some op =>
   if ops.length != opStrs.length then { corr := false, why := "unparsable op" } else
   let r := runPrefix w L ops c
+  if r.invalid.isSome then { corr := r.out == obsString c, spec := true, why := "not a valid history (ignored)", model := r.out, branch := "fault.invalid" } else
   if r.dead then { corr := false, why := "model: the prefix history does not complete", model := r.out } else
+  if !applicable op r.p then
+    let out := s!"invalid step={ops.length + 1}"
+    { corr := out == obsString c, spec := true, why := "not a valid history (ignored)", model := out, branch := "fault.invalid" } else
   let tail := faultTail w faultModel r.p op k
   let out := match tail with | some t => r.out ++ t | none => "abort asan"
   let obs := obsString c
